@@ -45,7 +45,8 @@ func wsRun(r *Rng) string {
 }
 
 func wsWord(r *Rng) string {
-	return r.Pick([]string{"w", "ab", "x1", "é", "a b", "p\tq", "l1\nl2", "-", "}", "#", "._."})
+	// (the last ones begin and end with characters that are NOT among the four whitespace characters the markers remove)
+	return r.Pick([]string{"w", "ab", "x1", "é", "a b", "p\tq", "l1\nl2", "-", "}", "#", "._.", "\u00a0x\u00a0", "\fz\v", "\u0085", "\u2003w\u2003", "\u00a0", "\v", "\u2028n\u3000"})
 }
 
 func wsGenText(r *Rng) *wsNode {
@@ -426,7 +427,11 @@ func c15Run(c *C) {
 		c.Cover(fmt.Sprintf("options_tb=%v_ls=%v", tb, ls))
 		if longPlain != nil {
 			// the same compiled template, its options changed since its previous execution
-			longPlain.Options.TrimBlocks, longPlain.Options.LStripBlocks = tb, ls
+			if r.Bool() {
+				longPlain.Options.TrimBlocks, longPlain.Options.LStripBlocks = tb, ls
+			} else {
+				longPlain.Options.Update(&pongo2.Options{TrimBlocks: tb, LStripBlocks: ls}) // the documented way to copy settings
+			}
 			lo, lerr := longPlain.Execute(wsCtx())
 			c.Eval(1)
 			if lerr != nil || lo != direct.String() {
